@@ -48,6 +48,8 @@ where
                 &self.session_stop_reason,
             )
             .await?;
+            #[cfg(fe2o3_amqp_verif)]
+            crate::verif::sched_point("observe.sender.delivery_queued").await;
         // cancel safe
         } else {
             // Send the first frame
@@ -61,6 +63,8 @@ where
                 &self.session_stop_reason,
             )
             .await?; // cancel safe
+            #[cfg(fe2o3_amqp_verif)]
+            crate::verif::sched_point("observe.sender.first_transfer_queued").await;
 
             // Only the first transfer of a delivery identifies it; a delivery-tag on a
             // continuation transfer (including the last one) would make the session
@@ -97,6 +101,8 @@ where
             )
             .await?;
             // cancel safe
+            #[cfg(fe2o3_amqp_verif)]
+            crate::verif::sched_point("observe.sender.delivery_queued").await;
         }
 
         Ok(settled)
@@ -237,6 +243,8 @@ where
         Fut: Future<Output = Option<LinkFrame>> + Send,
     {
         let tag = self.get_delivery_tag_or_detached(writer, detached).await?;
+        #[cfg(fe2o3_amqp_verif)]
+        crate::verif::sched_point("observe.sender.credit_taken").await;
         // Delivery count is incremented when consuming credit
         let delivery_tag = DeliveryTag::from(tag);
 
